@@ -37,7 +37,15 @@ TAGS = {'create': 1, 'setitem': 2, 'add': 3, 'delitem': 4, 'drop': 5, 'delete_fi
         'ds_setitem': 15, 'ds_delitem': 16, 'ds_drop': 17, 'ds_delete_df': 18}
 EXC_CODE = {'ValueError': 1, 'TypeError': 2, 'IndexError': 3, 'KeyError': 4, 'OverflowError': 5}
 
-RULE = ('exhaustive small scope on real (in-memory) HDF5 files: (A) every rename mapping (each column kept or sent to one '
+RULE = ('exhaustive small scope on real (in-memory) HDF5 files: (N) names relative to reserved / internal names: every '
+        'dataframe name that is a substring, superstring, case variant or same-length variant of the reserved group name '
+        '"trash" (23 names), the names used inside a field group (values, index, key_names, key_values, fieldtype) and their '
+        'prefixes / suffixes / extensions, and every string literal the tree under test compares names with (a literal that is '
+        'new in the tree gets all its relatives) x 7 dataset-level history shapes (create, ds[n] = df, copy, move across files, '
+        'create_dataframe(dataframe=), require_dataframe, delete), all ordered pairs of "trash"-relatives in one file, the '
+        'internal names as field names x 5 field types (rename / copy / move), random multi-frame histories with every prefix; '
+        'EVERY history of every generator ends with close + reopen in a fresh Session whose names, types and data are compared '
+        'with the live catalogue; (A) every rename mapping (each column kept or sent to one '
         'of {a,a_,a__,b,x}, plus unknown keys) on column sets of size 2..4 drawn from {a,a_,a__,b} in several orders; '
         '(A2) creation order x mapping: every ordered choice of 3 columns from {a,a_,a__,b,b_} (60 creation orders) x every '
         'mapping of all three onto distinct names of that alphabet (60: permutations, cycles, chains, identities), dict order '
@@ -61,7 +69,9 @@ TRUSTED = ['h5py/HDF5 link semantics as modelled in Catalogue.v (create_group / 
            'field payload I/O (data.write / data[:]) is the identity on the small integer payloads used']
 ASSUMPTIONS = ['one Session, each file opened once; operations address frames by ds[name] or by the first handle obtained for '
                'a frame that is still served (handles of dropped frames are not operated on) and fields by name; names do not '
-               'contain "/" and are not "trash"',
+               'contain "/"; no DATAFRAME is named exactly "trash" (the one top-level group name HDF5Dataset.__init__ does not '
+               'load, by design: c15_loader_hides_reserved) - its substrings / superstrings are generated, and fields may be named '
+               '"trash"',
                'field handles observed are those ever present in a catalogue']
 TECHNIQUE = ('Coq proof (state-machine invariant over a Gallina model of the dual Python/HDF5 catalogue) + exhaustive '
              'short-history differential correspondence against the real code on real HDF5 files')
@@ -74,7 +84,9 @@ LEVEL_TEXT = ('Theorems in coq/Props/C15.v prove, for all histories (any length,
               'that a moved handle is invalid, that rename returns exactly when its keys are distinct columns and the resulting '
               'names are distinct - whatever the creation order of the columns (every permutation mapping is carried out) - and '
               'that no operation re-binds a dataframe name that stays bound to another object (require_dataframe and lookups '
-              'never change a binding and hand back the catalogued object, empty frames included); the model is tied to the code '
+              'never change a binding and hand back the catalogued object, empty frames included), and that a reopen through the '
+              'loader that skips the reserved group name finds every frame of any other name - names are arbitrary byte lists, so '
+              'substrings and superstrings of the reserved name included - with the live fields, types and data; the model is tied to the code '
               'by running both on the same generated '
               'histories on real HDF5 files and comparing every intermediate observation.')
 LEVEL_NOTE = ('Trusted: Coq kernel, extraction, harness, the h5py link semantics written into the model. The code as '
